@@ -22,7 +22,8 @@ ASSUMPTIONS = ["grammar: (C-)?[A-Z]{3}_[A-Za-z0-9]+-N(_N(_[STPI](-N)+)?)? with N
                "solutions are compared through CommonRoadSolutionReader.fromstring(CommonRoadSolutionWriter.dump())"]
 
 GRAMMAR = re.compile(r"(C-)?([A-Z]{3})_([A-Za-z0-9]+)-([1-9][0-9]*)(?:_([1-9][0-9]*)(?:_([STPI])((?:-[1-9][0-9]*)+))?)?\Z")
-MAPS = ["Test", "A9", "US101", "a", "x9Y0", "101", "9a"]      # alphanumeric names, also ones that start with a digit
+MAPS = ["Test", "A9", "US101", "a", "x9Y0", "101", "9a",      # alphanumeric names, also ones that start with a digit
+        "M\u00fcnster9", "A-b_c"]     # names the constructor sanitises (characters outside [A-Za-z0-9] are dropped): the id it makes of them is a valid id like any other
 MAP_IDS = [1, 2, 10, 33, 1000]      # 1000, 300, 999: beyond the small-integer cache (value equality, not identity)
 CONFS = [None, 1, 2, 10, 300]
 BEHS = [None, "S", "T", "P", "I"]
@@ -86,7 +87,8 @@ def _check_sid(kw, res):
     printed = (m.group(1) is not None, m.group(2), m.group(3), int(m.group(4)),
                None if m.group(5) is None else int(m.group(5)), m.group(6),
                [] if m.group(7) is None else [int(p) for p in m.group(7).split("-")[1:]])
-    want = (bool(kw.get("coop")), kw["country"], kw["map"], kw["map_id"], exp_conf, kw.get("beh"), plist)
+    # (the map name as the documented sanitisation leaves it: characters outside the grammar's [A-Za-z0-9] are dropped)
+    want = (bool(kw.get("coop")), kw["country"], re.sub(r"[^A-Za-z0-9]", "", kw["map"]), kw["map_id"], exp_conf, kw.get("beh"), plist)
     for name, a, b in zip(("cooperative", "country_id", "map_name", "map_id", "configuration_id", "obstacle_behavior",
                            "prediction_id"), printed, want):
         if a != b:
@@ -182,6 +184,7 @@ def _check_sol(spec, res):
     res.evals += 1; res.transitions += 2; res.states += 1; res.nontrivial += 1
     try:
         sol = solspec.build_solution(spec)
+        given = solspec.build_sid(spec["sid"])         # the scenario id as the caller supplied it (the oracle; not what the solution object reports)
         bid = sol.benchmark_id
         text = CommonRoadSolutionWriter(sol).dump()
     except Exception as e:
@@ -189,7 +192,7 @@ def _check_sol(spec, res):
         return
     vs = ",".join(p["model"] + str(p["vtype"]) for p in spec["pps"])
     cs = ",".join(p["cost"] for p in spec["pps"])
-    want = "%s:%s:%s:%s" % (vs if n == 1 else f"[{vs}]", cs if n == 1 else f"[{cs}]", str(sol.scenario_id),
+    want = "%s:%s:%s:%s" % (vs if n == 1 else f"[{vs}]", cs if n == 1 else f"[{cs}]", str(given),
                             spec["sid"].get("ver", "2020a"))
     if bid != want:
         res.violation(f"C13|Solution|n={n}|benchmark_id|print-mismatch", f"{bid!r} != {want!r}", case)
@@ -206,8 +209,8 @@ def _check_sol(spec, res):
         res.violation(f"C13|Solution|n={n}|vehicles-costs|parse-mismatch", f"{bid}: {got} != {exp}", case)
     if [p.planning_problem_id for p in back.planning_problem_solutions] != [p["id"] for p in spec["pps"]]:
         res.violation(f"C13|Solution|n={n}|planning-problem-ids|parse-mismatch", bid, case)
-    if not (back.scenario_id == sol.scenario_id) or str(back.scenario_id) != str(sol.scenario_id):
-        res.violation(f"C13|Solution|n={n}|scenario_id|parse-mismatch", f"{bid}: {back.scenario_id}", case)
+    if not (back.scenario_id == given) or str(back.scenario_id) != str(given) or not (sol.scenario_id == given):
+        res.violation(f"C13|Solution|n={n}|scenario_id|parse-mismatch", f"{bid}: parsed {back.scenario_id}, solution object reports {sol.scenario_id}, given {given}", case)
     if back.scenario_id.scenario_version != spec["sid"].get("ver", "2020a"):
         res.violation(f"C13|Solution|n={n}|version|parse-mismatch", bid, case)
     if back.benchmark_id != bid:
@@ -242,7 +245,7 @@ def _check_sol(spec, res):
     try:
         back.scenario_id.configuration_id = 77; back.scenario_id.cooperative = not back.scenario_id.cooperative; back.scenario_id.map_id = 55
         again = CommonRoadSolutionReader.fromstring(text)
-        if not (again.scenario_id == sol.scenario_id) or str(again.scenario_id) != str(sol.scenario_id) or again.benchmark_id != bid:
+        if not (again.scenario_id == given) or str(again.scenario_id) != str(given) or again.benchmark_id != bid:
             res.violation(f"C13|Solution|second-parse-after-editing-the-first-result|scenario_id-differs", f"{bid}: second parse gives {again.scenario_id}", case)
     except Exception as e:
         res.violation(f"C13|Solution|second-parse|raises:{type(e).__name__}", f"{bid}: {e!r}", case)
